@@ -5,6 +5,8 @@ caller cannot set: parse_with_formats and the absolute parser read the system
 clock when RELATIVE_BASE is absent, and the custom-format path reads it even
 when RELATIVE_BASE is given) crossed with pairs of distant RELATIVE_BASE values.
 
+R0  a strict result only if the string itself states the demanded parts (judged where the
+    generator knows that no token of the string can carry a demanded part, single-reading pipelines);
 R1  strict result in {None, non-strict result} in the same world;
 R2  a non-None STRICT_PARSING result is identical under both clocks / all bases,
     and whether a result is produced at all does not depend on the reference;
@@ -27,7 +29,7 @@ ASSUMPTIONS = [
     "both worlds of a case share the process zone (the property quantifies over reference times; timestamps are rendered in the process zone by design)",
     "frozen clock per call (a relation between calls needs each call to have one reference)",
 ]
-EXPECTED_PROBES = {"clock_in_play": 1, "strict_value": 1, "strict_none": 1, "custom_format_used": 1, "timestamp": 1, "require_parts": 1, "localized": 1}
+EXPECTED_PROBES = {"r0_judged": 1, "clock_in_play": 1, "strict_value": 1, "strict_none": 1, "custom_format_used": 1, "timestamp": 1, "require_parts": 1, "localized": 1}
 
 EN_MONTHS = ["January", "February", "March", "April", "May", "June", "July", "August", "September", "October", "November", "December"]
 EN_DAYS = ["Monday", "Tuesday", "Wednesday", "Thursday", "Friday", "Saturday", "Sunday"]
@@ -78,11 +80,12 @@ def gen_case(rng, ctx):
         lang = rng.choice(["en", "en", L])
     elif kind == "numeric":
         sep = rng.choice(["/", ".", "-"])
-        shape = rng.choice(["dmy", "dm", "my", "y", "ymd", "d", "dmy2", "ym"])
+        shape = rng.choice(["dmy", "dm", "my", "y", "ymd", "d", "dmy2", "ym", "j"])
         s = {
             "dmy": "%02d%s%02d%s%04d" % (d.day, sep, d.month, sep, d.year), "dm": "%02d%s%02d" % (d.day, sep, d.month), "my": "%02d%s%04d" % (d.month, sep, d.year),
             "y": "%04d" % d.year, "ymd": "%04d%s%02d%s%02d" % (d.year, sep, d.month, sep, d.day), "d": "%d" % d.day,
             "dmy2": "%02d%s%02d%s%02d" % (d.day, sep, d.month, sep, d.year % 100), "ym": "%04d%s%02d" % (d.year, sep, d.month),
+            "j": "%03d" % rng.choice([1, 31, 59, 60, 61, 200, 213, 365]),
         }[shape]
         present = [shape]
         if rng.random() < 0.3:
@@ -96,8 +99,15 @@ def gen_case(rng, ctx):
         present = parts
         use_loc = L != "en" and months[d.month - 1] and rng.random() < 0.6
         if use_loc:
-            mname = rng.choice(months[d.month - 1])
-            wname = rng.choice(days[d.weekday()]) if days[d.weekday()] else EN_DAYS[d.weekday()]
+            all_m = {n.lower() for ml in months for n in ml}
+            all_d = {n.lower() for dl in days for n in dl}
+            # a name that is both a weekday and a month in this language is no use for stating one of them
+            m_ok = [n for n in months[d.month - 1] if n.lower() not in all_d and sum(n.lower() in {x.lower() for x in ml} for ml in months) == 1]
+            d_ok = [n for n in days[d.weekday()] if n.lower() not in all_m]
+            use_loc = bool(m_ok)
+        if use_loc:
+            mname = rng.choice(m_ok)
+            wname = rng.choice(d_ok) if d_ok else EN_DAYS[d.weekday()]
             localized = True
             lang = L
         else:
@@ -131,10 +141,10 @@ def gen_case(rng, ctx):
             fmts = [" ".join(ftoks)]
             if rng.random() < 0.3:
                 fmts.insert(0, "%Y-%m-%d")
-    if kind == "numeric" and rng.random() < 0.35:
+    if kind == "numeric" and (rng.random() < 0.35 or present[0] == "j"):
         f = s
         shape = present[0]
-        fm = {"dmy": "%d{s}%m{s}%Y", "dm": "%d{s}%m", "my": "%m{s}%Y", "y": "%Y", "ymd": "%Y{s}%m{s}%d", "d": "%d", "dmy2": "%d{s}%m{s}%y", "ym": "%Y{s}%m"}[shape]
+        fm = {"dmy": "%d{s}%m{s}%Y", "dm": "%d{s}%m", "my": "%m{s}%Y", "y": "%Y", "ymd": "%Y{s}%m{s}%d", "d": "%d", "dmy2": "%d{s}%m{s}%y", "ym": "%Y{s}%m", "j": "%j"}[shape]
         sep = next((c for c in s if c in "/.-"), "/")
         fmts = [fm.format(s=sep) + (" %H:%M" if "time" in present else "")]
     t1, t2 = two_clocks(rng)
@@ -182,6 +192,29 @@ def simplify(case):
         yield dict(case, zone="UTC")
     if case["lang"] is None:
         yield dict(case, lang="en")
+
+
+def stated_parts(case):
+    """Which of day / month / year can possibly be carried by the date tokens the generator wrote
+    (None = not judged for this kind of string)."""
+    kind, present = case["kind"], case["present"]
+    if kind in ("words", "format"):
+        parts = [p for p in present if p in ("day", "month", "year")]
+        can = set(parts)
+        # a day number (<= 31) could also be read as a month (<= 12) or a two-digit year; a 4-digit year only as a year
+        if "day" in parts:
+            can |= {"month", "year"}
+        return {"can_state": can, "ntokens": len(parts)}
+    if kind == "numeric":
+        shape = present[0]
+        n = {"dmy": 3, "dm": 2, "my": 2, "y": 1, "ymd": 3, "d": 1, "dmy2": 3, "ym": 2, "j": 1}[shape]
+        if shape == "j":
+            return None  # %j states day and month at once
+        if shape == "y":
+            return {"can_state": {"year"}, "ntokens": 1}
+        # short numbers are interchangeable between day / month / two-digit year
+        return {"can_state": {"day", "month", "year"}, "ntokens": n}
+    return None
 
 
 def pipeline(case):
@@ -338,6 +371,23 @@ def eval_case(case):
                     problems.append(("R3-required-part-depends-on-reference", name + ":" + part, "%s values %s" % (part, sorted(pv))))
             if nonnull and len(nonnull) < len(oks):
                 problems.append(("R3-noneness-depends-on-reference", name, "some worlds None, others %s" % nonnull[0]))
+    # R0: a result only if the string itself states the demanded parts.  The generator knows which
+    # date tokens it wrote; judged only where no other reading can supply the part: single-reading
+    # pipelines, and a part counts as "cannot be stated" only if no token could possibly carry it.
+    st_parts = stated_parts(case)
+    single_parser = (case["extra"].get("PARSERS") or [None])[0]
+    if st_parts is not None and pipeline(case) == "single" and single_parser in ("absolute-time", "custom-formats"):
+        for strict in case["stricts"]:
+            need = ["day", "month", "year"] if strict.get("STRICT_PARSING") else list(strict.get("REQUIRE_PARTS", []))
+            lacking = [p for p in need if p not in st_parts["can_state"]]
+            if not lacking and not (strict.get("STRICT_PARSING") and st_parts["ntokens"] < 3):
+                continue
+            stats["r0_judged"] = 1
+            for ci, cu in enumerate(clocks):
+                v = _call(dateparser, case, cu, bases[1], strict)
+                if v[0] == "ok" and v[1] is not None:
+                    problems.append(("R0-result-although-part-not-stated", "+".join(sorted(strict)), "the string %r states no %s, yet strict parsing returned %r" % (case["string"], "/".join(lacking) or "third date part", v[1])))
+                    break
     reads = len(clk.reads) - n0
     key = None
     if in_play:
